@@ -195,6 +195,32 @@ def cross_file(ctx, q):
                 if what:
                     ctx.oracle_fail(what, "definition link %s / %s" % (sel, tgt), {"mode": "scope", "workspace": c.id, "query": qq, "implementation": a, "case": c.to_json()})
     ctx.count("definition links checked", nl)
+    # a used file WITHOUT class / module header whose declarations sit on lines the requesting document does not have
+    hl_lines, hl_meta = [], []
+    for i in range(20 if q else 200):
+        pad = 3 + ctx.rng.below(30)
+        names = ["cLib%d_%d" % (i, k) for k in range(1 + ctx.rng.below(3))]
+        lib = "; a library without header\n" + "\n" * pad + "".join("const %s = %d\n" % (n, k) for k, n in enumerate(names)) + "type tLib%d : int4\n" % i
+        user = "class aUser%d\n\nuses wLib%d\n\nproc P\n" % (i, i) + "".join("   x = %s\n" % n for n in names) + "   var v : tLib%d\nendproc\n" % i
+        words = ["scope", "hl%d" % i, "F", core.esc("aUser%d" % i), core.esc(user), "F", core.esc("wLib%d" % i), core.esc(lib)]
+        for k, n in enumerate(names):
+            words += ["Q", "0", "d", str(5 + k), "8"]
+        hl_lines.append(" ".join(words))
+        hl_meta.append((user, lib, "wLib%d" % i))
+    for line, (user, lib, libstem), a in zip(hl_lines, hl_meta, ctx.run_harness("scope", hl_lines)):
+        for w in a.split(" "):
+            for sel, tgt in scopelib.links(w) or []:
+                nl += 1
+                stem, _, selr = sel.partition("@")
+                try:
+                    tr = ranges.parse_rng(tgt)
+                except Exception:
+                    continue
+                nlines = (lib if stem.upper() == libstem.upper() else user).count("\n") + 1
+                if tr[2] >= nlines:
+                    ctx.oracle_fail("C08:link-line-does-not-exist", "definition link %s / %s names %s, which has %d lines" % (sel, tgt, stem, nlines),
+                                    {"mode": "scope-line", "case": line, "implementation": a})
+    ctx.count("definition links into header-less files", len(hl_lines))
     # hierarchy items
     tcases = []
     for _ in range(300 if q else 5000):
@@ -223,6 +249,32 @@ def replay(ctx):
         print("replay file names no input:", json.dumps(d.get("broken", d), indent=1)[:3000])
         return 1
     ctx.build_harness()
+    if isinstance(case, dict) and case.get("mode") == "scope-line":
+        from .. import scopelib
+        a = ctx.run_harness("scope", [line])[0]
+        w = line.split(" ")
+        nlines = {}
+        for i, x in enumerate(w):
+            if x == "F":
+                nlines[core.unesc(w[i + 1]).upper()] = core.unesc(w[i + 2]).count("\n") + 1
+        print("files (lines) :", nlines)
+        print("implementation:", a)
+        bad = []
+        for ww in a.split(" "):
+            for sel, tgt in scopelib.links(ww) or []:
+                stem = sel.partition("@")[0]
+                try:
+                    tr = ranges.parse_rng(tgt)
+                except Exception:
+                    continue
+                if tr[2] >= nlines.get(stem.upper(), 10 ** 9):
+                    bad.append((sel, tgt))
+        if bad:
+            print("links beyond the end of the file they name:", bad[:5])
+            print("VIOLATION property=C08 replay=%s" % ctx.replay)
+            return 1
+        print("every link lies inside the file it names")
+        return 0
     if isinstance(case, dict) and case.get("mode") == "tree":
         a = ctx.run_harness("tree", [line])[0]
         print("case          :", line)
